@@ -3,7 +3,7 @@
    is exactly the ISO frame of r; spec = None (outside the documented domain) -> the builder fails. *)
 From Coq Require Import ZArith List Bool String.
 From UDS Require Import Lib.Bytes Lib.ErrM Model.Svc_Dtc Model.Svc_File Spec.IsoRequests Model.Message Model.Client Model.Services Model.Helpers
-  Model.MemLoc Model.Svc_Simple Model.Svc_Memory Model.Svc_Did Model.History Proofs.Client_lemmas Proofs.C07_lemmas Proofs.C07b_lemmas Proofs.C14_lemmas.
+  Model.MemLoc Model.Svc_Simple Model.Svc_Memory Model.Svc_Did Model.History Proofs.Client_lemmas Proofs.C07_lemmas Proofs.C07b_lemmas Proofs.C07c_lemmas Proofs.C14_lemmas.
 Import ListNotations.
 Open Scope Z_scope.
 
@@ -141,6 +141,13 @@ Theorem C07_io_control_is_the_call : forall cfg st did cp v m now s,
   run_inner cfg st (CIoControl did cp v m) now s = single_request cfg st (io_make cfg did cp v m) (io_interpret cfg did cp) no_post now s.
 Proof. reflexivity. Qed.
 
-(* C07_partial: the builder of dynamically_define_did by memory address (its widths: C14) is not yet characterised by a Coq theorem
-   against Spec/IsoRequests.v; for it the documented domain and the exact frame are checked by the boundary-complete correspondence
-   against the independent oracle tools/harness/isospec.py (same statement, evaluated on the implementation and on the model). *)
+(* dynamically_define_did by memory address: any number of sources, each MemoryLocation(address, size, address_format,
+   memorysize_format) with its widths explicit, else configured (server_address_format / server_memorysize_format), else the fewest
+   bytes that hold the value; every integer address and size (negative and oversized ones are refused), mixed widths are refused *)
+Theorem C07_define_by_memory : forall st cfg did entries,
+  agrees st (dddi_define_make cfg did (DefByMem entries)) (iso_define_by_memory (srv_addr cfg) (srv_size cfg) did entries).
+Proof. exact define_by_memory_agrees. Qed.
+Print Assumptions C07_define_by_memory.
+
+(* every request builder of the client is now characterised against Spec/IsoRequests.v by an `agrees` theorem (memory-addressed
+   requests other than define-by-memory through C07_memory_requests + C07_memory_wire_is_iso + C14_precedence). *)
